@@ -1,0 +1,31 @@
+//go:build verif
+
+/*
+Copyright (c) Meta Platforms, Inc. and affiliates.
+Licensed under the Apache License, Version 2.0 (the "License");
+you may not use this file except in compliance with the License.
+You may obtain a copy of the License at
+    http://www.apache.org/licenses/LICENSE-2.0
+Unless required by applicable law or agreed to in writing, software
+distributed under the License is distributed on an "AS IS" BASIS,
+WITHOUT WARRANTIES OR CONDITIONS OF ANY KIND, either express or implied.
+See the License for the specific language governing permissions and
+limitations under the License.
+*/
+
+package rdb
+
+// verifCompileWrap, when set, wraps the low-level database handle that Compile opens
+// (simulation testing only: error injection into a compilation).
+var verifCompileWrap func(DBI) DBI
+
+// VerifSetCompileWrap installs (or, with nil, removes) the wrapper applied to the low-level
+// database handle of every later compilation.
+func VerifSetCompileWrap(wrap func(DBI) DBI) { verifCompileWrap = wrap }
+
+func verifWrapCompiled(db DBI) DBI {
+	if verifCompileWrap != nil {
+		return verifCompileWrap(db)
+	}
+	return db
+}
